@@ -39,7 +39,7 @@ def check (c : Ctx) (r : Run) : Verdict :=
       else if !r.opts.rustfmt && !(RustStatic.keywordIssues o).isEmpty then .fail ("static#keywords: " ++ firstWhat (RustStatic.keywordIssues o))
       else .ok
     { corr := corr, spec := spec,
-      tags := tags ++ [if bn then "benign-names" else "not-benign-names", if bd then "benign-derives" else "not-benign-derives",
+      tags := tags ++ (if c.valid then [] else ["naga-invalid"]) ++ [if bn then "benign-names" else "not-benign-names", if bd then "benign-derives" else "not-benign-derives",
                        if bs then "benign-shadow" else "not-benign-shadow",
                        if bv then "benign-vertex" else "not-benign-vertex",
                        if bn && bd && bs && bv then "benign-all" else "not-benign-all"] }
